@@ -41,7 +41,15 @@ func run(c *core.Ctx) {
 		}
 		kit.ModelCheck(c, "SessionCache.tla", mc, tlc.Options{Workers: 12})
 	}()
-	scs := sessreal.ParseAll(c, sessreal.Generate(c, "Gen_SessionCache.tla", gen, tlc.Options{}))
+	raws := sessreal.Generate(c, "Gen_SessionCache.tla", gen, tlc.Options{})
+	if c.Thorough() {
+		// longer histories: seeded random life cycles of 7 steps, then every attack
+		walks := kit.Dedupe(sessreal.Generate(c, "Gen_SessionCache.tla", "Gen_C06_walk.cfg",
+			tlc.Options{Simulate: "num=40", Depth: 9, Seed: c.Seed}))
+		c.Set("seeded_walk_behaviours", len(walks))
+		raws = append(raws, walks...)
+	}
+	scs := sessreal.ParseAll(c, raws)
 	wg.Wait()
 	if c.IsBroken() {
 		return
